@@ -97,23 +97,29 @@ def _diff(c):
     if sh.startswith("trap:") or sh == "env":
         if fh != "err:intrinsic":
             return "no-" + sh.replace(":", "-")
-    elif fh != sh:
+    names = []
+    if not (sh.startswith("trap:") or sh == "env") and fh != sh:
         if fh == "err:intrinsic":
             return "spurious-trap"
-        return "next"
-    for k in set(sregs) | set(fregs):
+        names.append("next")
+    # ALL differing components, in a fixed order: a listed finding on one component must not hide a second defect on the
+    # same instruction, and the name must not depend on the iteration order of a set
+    for k in sorted(set(sregs) | set(fregs)):
         sv, fv = sregs.get(k), fregs.get(k)
         if sv == "*":
             continue
         if sv != fv:
             if k in ("$hi", "$lo", "lr", "ctr", "carry"):
-                return k.strip("$")
-            if k.startswith("cr"):
-                return "cr-" + k.split("-")[1]
-            return "gpr"
+                n = k.strip("$")
+            elif k.startswith("cr"):
+                n = "cr-" + k.split("-")[1]
+            else:
+                n = "gpr"
+            if n not in names:
+                names.append(n)
     if smem != fmem:
-        return "mem"
-    return None
+        names.append("mem")
+    return "+".join(names) if names else None
 
 
 def classify(c):
